@@ -25,6 +25,7 @@ open SamVerif.Useful
 #print axioms checker_iflet_decided
 #print axioms replayed_match_exact
 #print axioms replayed_iflet_exact
+#print axioms std_tuples_fields
 #print axioms static_function_scope
 #print axioms method_scope
 #print axioms variant_pattern_compositional
